@@ -3,18 +3,12 @@
 import json, os
 HERE = os.path.dirname(os.path.dirname(os.path.abspath(__file__)))
 
-CLAIMED = {
- "C02": dict(
-   text="Lean 4 theorems over Model.Tag (tag_roundtrip, taglist_roundtrip, length_escape, parse_total, "
-        "parse_wf, reparse_stable, getContext_balanced/unclosed, anyDecode_balanced/unclosed) for all tag "
-        "lists and all octet strings, tied to Tag/TagList/Any in py34 by differential execution "
-        "(exhaustive short octet strings, boundary grid, mutated streams, nesting shapes) plus an "
-        "implementation-side oracle",
-   note="trusted: Lean kernel + {propext, Classical.choice, Quot.sound}; hand-written model Model/Tag.lean "
-        "tied only by the correspondence streams; Python bytes/struct; data lengths < 2^32",
-   technique="Lean 4 proof (induction over tag lists / octet strings) + differential correspondence",
-   design="§7 C02"),
-}
+CLAIMED = {}
+
+# per-property entries live in manifest.d/Cnn.json: {"text","note","technique","design"[, "category"]}
+import glob
+for f in sorted(glob.glob(os.path.join(HERE, "manifest.d", "C*.json"))):
+    CLAIMED[os.path.basename(f)[:-5]] = json.load(open(f))
 
 PENDING_REASON = "check not built yet in this round; planned as Lean 4 proof + correspondence (DESIGN.md §7)"
 
